@@ -296,7 +296,10 @@ BadExprs(t) ==      \* <<expression, context in which it is offered>>; context \
               Agg("sum", Win("row_number", <<>>, <<Ord(Col(c), FALSE, "first")>>)),
               Win("cum_sum", <<Agg("sum", Col(c))>>, <<Ord(Col(c), FALSE, "first")>>),
               Fn2("add", Agg("sum", Fn2("add", Agg("min", Col(c)), LitI(1))), LitI(1)),
-              Win("rank", <<>>, <<Ord(Agg("sum", Col(c)), FALSE, "first")>>)>>))
+              Win("rank", <<>>, <<Ord(Agg("sum", Col(c)), FALSE, "first")>>),
+              AggP("sum", Col(c), <<Agg("max", Col(c))>>),
+              Shift(Col(c), 1, <<>>, <<Ord(Win("row_number", <<>>, <<Ord(Col(c), FALSE, "first")>>), FALSE, "first")>>),
+              WinP("row_number", <<>>, <<Ord(Col(c), FALSE, "first")>>, <<Fn2("add", Agg("min", Col(c)), LitI(1))>>)>>))
         \* unknown / dead references and markers outside arrange
         \o <<CN("zz"), Fn2("add", CN("zz"), LitI(1)), Col(999)>>
         \o Flat(MapS(a, LAMBDA c : <<Mark("descending", Col(c)), Fn2("add", Mark("nulls_last", Col(c)), LitI(1)),
